@@ -344,7 +344,6 @@ func getCursorIndex(edges []Edge, cursor string) int {
 // It also implements part of the hasNextPage and hasPrevPage algorithm by returning if there are
 // elements after or before the arguments.
 func applyCursorsToAllEdges(edges []Edge, before *string, after *string) ([]Edge, bool, bool) {
-	edgeCount := len(edges)
 	elemsAfter := false
 	elemsBefore := false
 
@@ -359,6 +358,8 @@ func applyCursorsToAllEdges(edges []Edge, before *string, after *string) ([]Edge
 
 	}
 	if before != nil {
+		// Count what is left after applying `after`: i indexes into that list.
+		edgeCount := len(edges)
 		i := getCursorIndex(edges, *before)
 		if i != -1 {
 			edges = edges[:i]
